@@ -115,22 +115,32 @@ public:
     } else {
       bool if_offset = (c0);
       int num_el = Q.num_nz_ + if_offset;
-      auto sumw = ew.OPutN(nl::SUM, num_el);
-      if (if_offset)
-        sumw.NPut(c0);
-      auto pos_end = Q.num_nz_;
-      for (auto i=NLME().NumCols(); i--; ) {
-        for (auto pos=Q.start_[i]; pos!=pos_end; ++pos) {
-          auto coef = 0.5 * Q.value_[pos];
-          auto prod1 = sumw.OPut2(nl::MUL);
-          prod1.NPut(coef);
-          auto prod2 = prod1.OPut2(nl::MUL);
-          prod2.VPut(VPerm(i), NLME().ColName(i));   // x
-          prod2.VPut(VPerm(Q.index_[pos]),
-                     NLME().ColName(Q.index_[pos])); // y
+      auto write_terms = [&](auto& sumw) {
+        if (if_offset)
+          sumw.NPut(c0);
+        auto pos_end = Q.num_nz_;
+        for (auto i=NLME().NumCols(); i--; ) {
+          for (auto pos=Q.start_[i]; pos!=pos_end; ++pos) {
+            auto coef = 0.5 * Q.value_[pos];
+            auto prod1 = sumw.OPut2(nl::MUL);
+            prod1.NPut(coef);
+            auto prod2 = prod1.OPut2(nl::MUL);
+            prod2.VPut(VPerm(i), NLME().ColName(i));   // x
+            prod2.VPut(VPerm(Q.index_[pos]),
+                       NLME().ColName(Q.index_[pos])); // y
+          }
+          pos_end = Q.start_[i];
         }
-        pos_end = Q.start_[i];
-      }
+      };
+      // NL's sum needs at least 3 arguments
+      if (num_el >= 3) {
+        auto sumw = ew.OPutN(nl::SUM, num_el);
+        write_terms(sumw);
+      } else if (2 == num_el) {
+        auto sumw = ew.OPut2(nl::ADD);
+        write_terms(sumw);
+      } else
+        write_terms(ew);
     }
   }
 
